@@ -12,11 +12,13 @@ package apk
 //
 //@ func (a *Apk) Package(info *nfpm.Info, apk io.Writer) (err error)
 //@   requires info != nil
+//@   requires !ghostFlag("signerFailed")
 //@   requires files.SpecContentsNonNil(info.Contents)
 //@   requires !ghostFlag("failed") && !ghostFlag("clockRead") && !ghostFlag("envRead")
 //@   ensures [C06] loud: implies(err == nil, !ghostFlag("failed"))
 //@   ensures [C07] no-clock: implies(!old(info.MTime.IsZero()), !ghostFlag("clockRead"))
 //@   ensures [C07] no-env: !ghostFlag("envRead")
+//@   ensures [C10] signer-failure-is-typed: implies(ghostFlag("signerFailed"), err != nil && errAsSigningFailure(err) && errIs(err, globErr("signerErr")))
 //@   modifies [C11 C12] &info.Arch, &info.Contents
 //
 //@ spec func apkItem(c *files.Content) string {
@@ -71,7 +73,7 @@ package apk
 //@     invariant [C01] plan-entries-complete: inlined() || files.SpecPlanInputOK(info.Contents, !old(info.MTime.IsZero()))
 //@     invariant [C06] no-failure-so-far: !ghostFlag("failed")
 //@     invariant [C07] no-clock-so-far: implies(!old(info.MTime.IsZero()), !ghostFlag("clockRead"))
-//@     invariant [C11 C12] plan-still-fresh: !inlined() || nfpm.SpecPlanOK(info.Contents, !old(info.MTime.IsZero()))
+//@     invariant [C01 C04 C05 C11 C12] plan-still-fresh: !inlined() || nfpm.SpecPlanOK(info.Contents, !old(info.MTime.IsZero()))
 //
 //@ inline func combineToApk(target io.Writer, readers ...io.Reader) (err error)
 //@   loop 0 unroll 4
@@ -192,3 +194,4 @@ package apk
 //@   ensures [C10] the-callback-receives-the-control-digest: implies(err == nil && !isNilFunc(info.APK.Signature.SignFn), globStr("signedBytes") == string(digest))
 //@   ensures [C10] signature-member-is-named-after-the-key: implies(err == nil && info.APK.Signature.KeyName != "", ghostStr(tw, "lastName") == apkSigName(info.APK.Signature.KeyName))
 //@   ensures [C10 C06] a-failing-signer-is-reported: implies(ghostFlag("failed"), err != nil)
+//@   ensures [C10] signer-error-is-kept: implies(ghostFlag("signerFailed") && !old(ghostFlag("signerFailed")), errIs(err, globErr("signerErr")))
